@@ -595,19 +595,15 @@ func (w *world) failingUpdate(s Step) (*kit.Failure, string) {
 	}
 	edits = edits[:k]
 	if !w.opts.noExcl {
-		// F7: a panic after the callback mutated the clone leaves the dirty
-		// clone in place. The panic variant is only generated with k = 0.
-		if mode == "panic" && k > 0 {
-			mode = "error"
-			w.ev["excluded:F7"]++
-		}
-		// C08-PRES (new finding, provisional id): a presence Set inside a failing callback writes through to the
+		// (F7 — a panic after the callback mutated the clone left the dirty
+		// clone in place — is repaired; the panic variant runs with any k.)
+		// F25 (new finding, provisional id): a presence Set inside a failing callback writes through to the
 		// presence carried by an earlier pending change / to the
 		// authoritative presence map.
 		for i := range edits {
 			if edits[i].Op == "pset" {
 				edits[i].Op = "rootset"
-				w.ev["excluded:C08-PRES"]++
+				w.ev["excluded:F25"]++
 			}
 		}
 	}
@@ -1112,17 +1108,14 @@ func run(c Case, opts runOpts) outcome {
 		if abort != "" {
 			w.ev["abort_"+abort]++
 			// A step other than Update failed (a pack could not be applied,
-			// Undo returned an error, ...): the case ends here. C08-UNDO (new finding, provisional id): an
+			// Undo returned an error, ...): the case ends here. F24 (new finding, provisional id): an
 			// Undo/Redo that fails half-way keeps the half-executed clone, so
 			// with exclusions on the clone==root oracle is not evaluated after
 			// a failed Undo/Redo (trigger: Undo/Redo returned an error).
 			if abort == "undo_failed" || abort == "redo_failed" {
-				if w.opts.noExcl {
-					if cf := w.checkCloneEqRoot("the failed " + abort[:4]); cf != nil && f == nil {
-						o.Fail = cf
-					}
-				} else {
-					w.ev["excluded:C08-UNDO"]++
+				// (F24 is repaired: the oracle is evaluated after a failed Undo/Redo too.)
+				if cf := w.checkCloneEqRoot("the failed " + abort[:4]); cf != nil && f == nil {
+					o.Fail = cf
 				}
 			}
 		}
